@@ -1,7 +1,8 @@
 (* C08/Model.v — where messages and browsers are sent, as coded.
-   Mirrors: mdstore.InMemoryMetaData.service / ext_service (642-679, 333-350),
-   MetadataStore.service / ext_service / with_descriptor / the per-service wrappers
-   (1173-1294, 1384-1388), mdstore.locations / response_locations / all_locations (156-200),
+   Mirrors: mdstore.InMemoryMetaData.service / ext_service / __getitem__ (647-684, 333-350, 551),
+   MetadataStore.service (1199-1221, after "fix:" d8b1d2a4: the first source that has the entity
+   answers) / ext_service (1239-1253, unchanged: falls through) / with_descriptor (1414-1423, after
+   "fix:" 18964551) / the per-service wrappers, mdstore.locations / response_locations / all_locations (156-200),
    Entity.pick_binding (entity.py 313-356), Entity.response_args (370-421; Server does not
    override it), Base._sso_location (client_base.py 209-233),
    Saml2Client.prepare_for_(negotiated_)authenticate (client.py 39-178),
@@ -79,8 +80,9 @@ Arguments Found {A} l.
 Arguments Unsupported {A}.
 Arguments Unknown {A}.
 
-(* MetadataStore.service / ext_service: the first source with a non-empty answer wins; a source
-   that knows the entity (and role) but has nothing for the binding only sets known_entity *)
+(* MetadataStore.ext_service (NOT changed by d8b1d2a4): the first source with a non-empty answer
+   wins; a source that knows the entity (and role) but has nothing for the binding only sets
+   known_entity, and the loop goes on to the later sources *)
 Fixpoint store_first {A} (get : source -> option (list A)) (keep : A -> bool) (m : md) (known : bool) : sres A :=
   match m with
   | [] => if known then Unsupported else Unknown
@@ -96,8 +98,39 @@ Fixpoint store_first {A} (get : source -> option (list A)) (keep : A -> bool) (m
 
 Definition has_binding (b : string) (ep : endpoint) : bool := String.eqb (ep_binding ep) b.
 
-(* binding = None is do_logout's call: all endpoints of the service (grouped later) *)
+(* _md[entity_id] does not raise KeyError: the source has the entity (whatever its roles) *)
+Definition has_entity (eid : string) (s : source) : bool :=
+  match assoc eid s with Some _ => true | None => false end.
+
+(* the first source, in load order, that has the entity: the one MetadataStore.__getitem__ and
+   (since d8b1d2a4) MetadataStore.service answer from *)
+Fixpoint first_with (eid : string) (m : md) : option source :=
+  match m with
+  | [] => None
+  | s :: r => if has_entity eid s then Some s else first_with eid r
+  end.
+
+(* MetadataStore.service after "fix:" d8b1d2a4: sources without the entity are skipped; the FIRST
+   source that has it answers and the loop stops there: a non-empty answer is returned, an empty
+   one ([] / {}) is UnsupportedBinding, None (no descriptor of that role) is UnknownSystemEntity.
+   binding = None is do_logout's call: all endpoints of the service (grouped later) *)
 Definition store_service (m : md) (eid typ svc : string) (binding : option string) : sres endpoint :=
+  match first_with eid m with
+  | None => Unknown
+  | Some s =>
+      match src_service typ svc eid s with
+      | None => Unknown
+      | Some l =>
+          match filter (match binding with Some b => has_binding b | None => fun _ => true end) l with
+          | [] => Unsupported
+          | l' => Found l'
+          end
+      end
+  end.
+
+(* MetadataStore.service as it was before d8b1d2a4 (fall-through like ext_service); kept for
+   classifying a regression and for the theorem that tells the two apart *)
+Definition store_service_v0 (m : md) (eid typ svc : string) (binding : option string) : sres endpoint :=
   store_first (src_service typ svc eid)
               (match binding with Some b => has_binding b | None => fun _ => true end) m false.
 
@@ -282,9 +315,18 @@ Fixpoint dedup (l : list string) : list string :=
   | x :: r => x :: filter (fun y => negb (String.eqb y x)) (dedup r)
   end.
 
-(* MetadataStore.with_descriptor("idpsso").keys() *)
-Definition with_idp (m : md) : list string :=
-  dedup (flat_map (fun s => map fst (filter (fun p => entity_has R_IDP (snd p)) s)) m).
+(* MetadataStore.with_descriptor("idpsso").keys() after "fix:" 18964551: an entity is described by
+   the first source that has it, so a source contributes its IdPs only when no earlier source has
+   the same entityID (seen = every key of the earlier sources, whatever the role) *)
+Fixpoint with_idp_from (seen : list string) (m : md) : list string :=
+  match m with
+  | [] => []
+  | s :: r =>
+      map fst (filter (fun p => entity_has R_IDP (snd p) && negb (mem (fst p) seen)) s)
+      ++ with_idp_from (map fst s ++ seen) r
+  end.
+
+Definition with_idp (m : md) : list string := dedup (with_idp_from [] m).
 
 Definition sso_of (m : md) (e b : string) : outcome :=
   match store_service m e R_IDP S_SSO (Some b) with
